@@ -18,7 +18,9 @@ const SPECIAL: &[char] = &[
     '🦀', '\u{10ffff}', '\u{e000}', '\u{fffd}', 'İ', '%', '`', '~', '?', '\u{2060}',
 ];
 
-const SNIPPETS: &[&str] = &["\r\n", "\\n", "\\\"", "\\u{41}", "{}", "{{", "r#\"", "\"#", "\\\\", "\\x00", "*/ /*", "//", "\"\"\"", "'\"'", "\\\r\n", "${x}", "{0}", "\u{1F469}\u{200D}\u{1F4BB}"];
+const SNIPPETS: &[&str] = &[" ; ", " , ", " :: ", " . ", "# [", " ! ", " -> ", " => ", "{ }", "( )", " < ", " > ", " & ", "r # \"", "\r\n", "\\n", "\\\"", "\\u{41}", "{}", "{{", "r#\"", "\"#", "\\\\", "\\x00", "*/ /*", "//", "\"\"\"", "'\"'", "\\\r\n", "${x}", "{0}", "\u{1F469}\u{200D}\u{1F4BB}"];
+
+pub const TOKEN_BOUNDARY_PAYLOADS: [&str; 16] = [" ; ", " , ", " :: ", " . ", " # [ ", " ! ", " -> ", " => ", " { } ", " ( ) ", " < ", " > ", " & ", " r # \" ", " ' a ", " = "];
 
 fn payload(ch: &mut Ch) -> String {
     let n = ch.usize_range(0, 40);
@@ -249,9 +251,21 @@ pub fn eval_replay(sut: &dyn Sut, v: &Value) -> Result<(), String> {
 pub fn run(sut: &dyn Sut, tier: Tier) -> ! {
     preflight::quiet_panics();
     let mut run = Run::new("C16", tier);
-    run.rule = "a small generated shader (identifiers with non-ASCII letters) whose leading/trailing block and line comments carry a payload drawn from a character strategy rich in quotes, backslashes, braces, CR, CRLF, NUL and other C0/C1 controls, U+2028/2029, bidi controls, BOM, zero-width and combining marks, non-BMP and arbitrary scalar values, optionally CRLF line endings; include paths with quotes, backslashes, '..', controls and non-ASCII; rustfmt on for 1/24 of the wide cases. Wide width: SOURCE's initialiser unescaped with syn must equal the input; the include variant must be include_str! of exactly the path and token-identical elsewhere. Executed width: rustc evaluates SOURCE.as_bytes() == include_bytes!(input) and the fake device records the string handed to create_shader_module. Non-trivial = the input (or path) contains a character that needs escaping, a control/format character or a non-BMP character; distinct by (wgsl, path, rustfmt).".to_string();
+    run.rule = "a small generated shader (identifiers with non-ASCII letters) whose leading/trailing block and line comments carry a payload drawn from a character strategy rich in quotes, backslashes, braces, CR, CRLF, NUL and other C0/C1 controls, U+2028/2029, bidi controls, BOM, zero-width and combining marks, non-BMP and arbitrary scalar values, optionally CRLF line endings; include paths with quotes, backslashes, '..', controls and non-ASCII; rustfmt on for 1/24 of the wide cases; plus a fixed list of 16 payloads that look like the separators of a stringified token stream (` ; `, ` :: `, ` # [ `, ...), each with rustfmt off and on. Wide width: SOURCE's initialiser unescaped with syn must equal the input; the include variant must be include_str! of exactly the path and token-identical elsewhere. Executed width: rustc evaluates SOURCE.as_bytes() == include_bytes!(input) and the fake device records the string handed to create_shader_module. Non-trivial = the input (or path) contains a character that needs escaping, a control/format character or a non-BMP character; distinct by (wgsl, path, rustfmt).".to_string();
     let mut stats = Stats::new();
     run.canaries(&mut |v| eval_replay(sut, v));
+    // fixed part: payloads that look like the separators of a stringified token stream, each with
+    // rustfmt off and on, embedded and with an include path
+    for (k, pay) in TOKEN_BOUNDARY_PAYLOADS.iter().enumerate() {
+        for rustfmt in [false, true] {
+            let wgsl = format!("/* {pay} */\n@compute @workgroup_size(1)\nfn main() {{ for (var i = 0u ; i < 4u ; i++) {{ }} }}\n// {pay}\n");
+            let c = Case { wgsl, include_path: if k % 2 == 0 { Some(format!("dir{pay}shader.wgsl")) } else { None }, rustfmt };
+            if let Err(m) = judge_wide(sut, &c, &mut stats) {
+                run.violation(json!({"kind": "c16wide", "wgsl": c.wgsl, "include_path": c.include_path, "rustfmt": c.rustfmt}), &m);
+                run.finish(&stats);
+            }
+        }
+    }
     let cases = tier.pick(3000, 100000);
     let mut j = |choices: &[u32], st: &mut Stats| {
         let mut ch = Ch::new(choices);
